@@ -44,6 +44,7 @@ type (
 	}
 	EForall struct {
 		Var, Type string
+		In        Expr // non-nil: element quantifier over a slice
 		Body      Expr
 	}
 )
@@ -800,6 +801,22 @@ func (p *exprParser) unary() (Expr, error) {
 	if t.kind == "id" && t.s == "forall" && p.ts[p.pos+1].kind == "id" {
 		p.next()
 		v := p.next().s
+		if p.peek().kind == "id" && p.peek().s == "in" {
+			// forall x in <slice expr> :: body   (quantifies over the elements)
+			p.next()
+			coll, err := p.parse(3)
+			if err != nil {
+				return nil, err
+			}
+			if p.next().s != ":" || p.next().s != ":" {
+				return nil, fmt.Errorf("expected '::' after forall binder")
+			}
+			body, err := p.parse(0)
+			if err != nil {
+				return nil, err
+			}
+			return &EForall{Var: v, In: coll, Body: body}, nil
+		}
 		tn, err := p.typeName()
 		if err != nil {
 			return nil, err
